@@ -347,8 +347,8 @@ impl Spec {
                             match (self.remote_key, auth) {
                                 (None, _) => Some(false),
                                 (Some(_), Auth::None) => Some(false),
-                                (Some(rk), Auth::Sha1(k)) | (Some(rk), Auth::Sha256(k)) | (Some(rk), Auth::Both(k)) => Some(rk == *k),
-                                (Some(_), Auth::Sha1Flipped(_)) => Some(false),
+                                (Some(rk), Auth::Sha1(k)) | (Some(rk), Auth::Sha256(k)) | (Some(rk), Auth::Both(k)) | (Some(rk), Auth::Sha256Trunc(k)) => Some(rk == *k),
+                                (Some(_), Auth::Sha1Flipped(_)) | (Some(_), Auth::Sha256Flipped(_)) => Some(false),
                             }
                         } else {
                             match auth {
